@@ -107,19 +107,6 @@ def usedNames (c : List Level) : List Name := c.flatMap (fun l => namesL l.nodes
 /-! ## block checks: declarative side -/
 
 mutual
-/-- every named block of a node, wherever it is nested -/
-def allBlocksN : Node → List Name
-  | .block (some b) _ k => b :: allBlocksL k
-  | .block none _ k => allBlocksL k
-  | .defn _ _ k => allBlocksL k
-  | .callTag k => allBlocksL k
-  | _ => []
-def allBlocksL : List Node → List Name
-  | [] => []
-  | n :: r => allBlocksN n ++ allBlocksL r
-end
-
-mutual
 /-- the named blocks that have a `<%def>` or `<%call>` ancestor -/
 def misplacedN : Node → List Name
   | .defn _ _ k => allBlocksL k
